@@ -702,7 +702,7 @@ def rule_divless(ctx, R):
                     return "SET%s(%s)" % (ov[s["p"]["l"]], roles.of_origin(roles.org.of_rvalue(s["r"], bi, si)))
                 return NotImplemented
 
-            ev = Events(b, fb, roles=roles, stmt_events=stmt_events, extra_epsilon={"core::slice::<impl [T]>::len", "[T]::len"})
+            ev = Events(b, fb, roles=roles, stmt_events=stmt_events, extra_epsilon={"core::slice::<impl [T]>::len", "[T]::len", "std::ops::RangeInclusive::new", "core::ops::range::RangeInclusive::new", "core::ops::RangeInclusive::new"})
             cfg = normal_cfg(b)
             d = language(b, fb, cfg, 0, cfg.returns, ev, stop_at_exit=False)
             E = "ELEM<REV(Range::Range{K0,A})>"
@@ -728,6 +728,10 @@ def rule_divless(ctx, R):
                 for sk in ((skip("A", "LHS"), skip("B", "RHS")), (skip("B", "RHS"), skip("A", "LHS"))):
                     for tl in tails:
                         specs.append(Seq(*init, *sk, tl))
+            # each cursor initialised and moved down before the other one is touched (e.g. a helper called twice)
+            for tl in tails:
+                specs.append(Seq(ia, skip("A", "LHS"), ib, skip("B", "RHS"), tl))
+                specs.append(Seq(ib, skip("B", "RHS"), ia, skip("A", "LHS"), tl))
             p_c01.check_lang_any(R, "less_core:definition", "magnitude comparison: ignore leading zero limbs; more significant limbs means larger; otherwise the most significant differing limb decides; equal is not less", d, specs, b.span)
     # ---- div_core
     L = LimbBody(fb, B + "div_core", {1: "LHS", 2: "RHS"})
